@@ -146,6 +146,8 @@ func c04Cases(tier string, group string, lower bool) []c04Case {
 			{callers: [][]cop{{stat("/a"), stat("/b")}, {rl("/l")}}, permute: true, after: true},                               // a caller that starts its next call while the loss is being announced
 			{ctxCancel: true, callers: [][]cop{{{kind: "ReadDirCtx", path: "/dir2"}, stat("/b")}}, permute: true, after: true}, // a listing abandoned through its context, then the loss
 		}
+		// a client with a remote-status function (NewClient over ssh): the status arrives only after every caller has returned
+		bases = append(bases, callsSpec{status: true, callers: [][]cop{{stat("/a")}, {rl("/l")}}, permute: true, after: true})
 		if tier == "thorough" {
 			bases = append(bases, callsSpec{callers: [][]cop{{stat("/a"), ra(2)}, {rl("/l")}, {wa(0, "XY")}}, permute: true, after: true})
 		}
